@@ -822,3 +822,111 @@ def w6(proj, rep, funcs):
                               f'sibling returns {out1}: the batched result is a transposed tensor (for the Choi operator: its partial transpose, not PSD)', m, c2)
     rep.count('W6.batched_einsum_pairs', n)
     return n
+
+
+# ------------------------------------------------------------------------------------------------ W7
+RULE_W7 = ('W7: on every branch path of a functional map the column slices taken from the parameter array `theta[:, a:b]` (before theta is re-bound) '
+           'partition the parameter vector: no column is read twice and none is skipped. An overlap makes two roles share parameters and leaves '
+           'others dead - the map stays on the manifold, but the chart loses rank (not locally onto).')
+
+
+def _theta_slices(e, pname):
+    out = []
+    for x in ast.walk(e):
+        if isinstance(x, ast.Subscript) and isinstance(x.value, ast.Name) and x.value.id == pname and isinstance(x.slice, ast.Tuple) and len(x.slice.elts) >= 2 \
+                and isinstance(x.slice.elts[0], ast.Slice) and x.slice.elts[0].lower is None and x.slice.elts[0].upper is None and isinstance(x.slice.elts[1], ast.Slice):
+            s1 = x.slice.elts[1]
+            if s1.step is None and (s1.lower is not None or s1.upper is not None):
+                out.append((s1.lower, s1.upper, x))
+    return out
+
+
+def _paths(body, pname, acc, alive, out, depth=0, decided=None):
+    """enumerate branch paths that are consistent in their branch conditions; acc = slices collected so far on this path"""
+    decided = dict(decided or {})
+    if depth > 14:
+        return
+    for i, st in enumerate(body):
+        if isinstance(st, ast.If):
+            rest = body[i + 1:]
+            test = st.test
+            neg = False
+            while isinstance(test, ast.UnaryOp) and isinstance(test.op, ast.Not):
+                neg, test = not neg, test.operand
+            key = ast.unparse(test).replace(' ', '')
+            for val, arm in ((True, st.body), (False, st.orelse)):
+                truth = val != neg            # truth value of `key` on this arm
+                if key in decided and decided[key] != truth:
+                    continue                  # infeasible: contradicts an earlier decision on the same condition
+                d2 = dict(decided)
+                d2[key] = truth
+                _paths(list(arm) + rest, pname, list(acc), alive, out, depth + 1, d2)
+            return
+        if isinstance(st, (ast.For, ast.While)):
+            continue        # slices taken in loops / comprehensions over cumulative bounds are partitions by construction: not typed here
+        if not alive:
+            continue
+        if isinstance(st, (ast.Assign, ast.AugAssign, ast.Expr, ast.Return)):
+            val = st.value
+            if val is not None and not any(isinstance(x, (ast.ListComp, ast.GeneratorExp)) for x in ast.walk(val)):
+                acc = acc + _theta_slices(val, pname)
+            if isinstance(st, ast.Assign) and any(isinstance(t, ast.Name) and t.id == pname for t in st.targets):
+                t = ast.unparse(st.value).replace(' ', '')
+                if not (t.startswith(pname + '.reshape(') or t.startswith(pname + '.view(')):
+                    alive = False
+    out.append(acc)
+
+
+def w7(proj, rep, modules):
+    rep.rule('W7', RULE_W7)
+    n = 0
+    for mq in modules:
+        m = proj.mod(mq)
+        rep.touch(m)
+        for fi in [f for f in proj.funcs.values() if f.module is m and f.cls is None and 'theta' in f.all_params]:
+            paths = []
+            _paths(fi.node.body, 'theta', [], True, paths)
+            seen = set()
+            bad_reported = False
+            for acc in paths:
+                if len(acc) < 2:
+                    continue
+                key = tuple(sorted((ast.unparse(a) if a is not None else '', ast.unparse(b) if b is not None else '') for a, b, _ in acc))
+                if key in seen:
+                    continue
+                seen.add(key)
+                names = sorted({x.id for a, b, _ in acc for e in (a, b) if e is not None for x in ast.walk(e) if isinstance(x, ast.Name)})
+                verdicts = []
+                for base in (3, 4):
+                    env = {nm: base + 2 * k for k, nm in enumerate(names)}
+                    L = 10 ** 6
+                    try:
+                        iv = []
+                        for a, b, _ in acc:
+                            lo = 0 if a is None else eval(compile(ast.Expression(a), '<w7>', 'eval'), {'__builtins__': {}}, dict(env))
+                            hi = L if b is None else eval(compile(ast.Expression(b), '<w7>', 'eval'), {'__builtins__': {}}, dict(env))
+                            lo = lo + L if lo < 0 else lo
+                            hi = hi + L if hi < 0 else hi
+                            iv.append((lo, hi))
+                    except Exception:
+                        verdicts.append(None)
+                        continue
+                    iv = sorted(set(iv))
+                    # no open-ended slice on this path: the vector ends where the last slice ends (its length is W3's business)
+                    end = L if any(h == L or h > L // 2 for _, h in iv) else iv[-1][1]
+                    ok = iv[0][0] == 0 and iv[-1][1] == end and all(iv[k][1] == iv[k + 1][0] for k in range(len(iv) - 1))
+                    verdicts.append(ok)
+                if None in verdicts:
+                    continue
+                n += 1
+                txt = ', '.join(f'[{ast.unparse(a) if a is not None else ""}:{ast.unparse(b) if b is not None else ""}]' for a, b, _ in acc)
+                if all(verdicts):
+                    rep.ok('W7', fi.qual, f'column slices {txt} partition theta', m, acc[0][2])
+                elif not any(verdicts) and not bad_reported:
+                    bad_reported = True
+                    rep.violation('W7', fi.qual, f'on one branch path theta is read through the column slices {txt}: they do not partition the parameter vector (a block is '
+                                  f'read twice and / or a block is never read), so some parameters are dead and the chart is rank-deficient', m, acc[-1][2])
+                elif not all(verdicts) and any(verdicts):
+                    n -= 1
+    rep.count('W7.slice_sets', n)
+    return n
